@@ -1,0 +1,56 @@
+//go:build verif
+// +build verif
+
+package raft
+
+import (
+	etcdRaft "github.com/coreos/etcd/raft"
+	"github.com/coreos/etcd/raft/raftpb"
+	uuid "github.com/satori/go.uuid"
+)
+
+// Observation hooks for the simulation harness (build tag "verif").
+
+// VerifOnApply is called on the apply goroutine after an entry has been handed
+// to the group's process function (or its membership change applied).
+var VerifOnApply func(nodeId uint64, group uuid.UUID, entry raftpb.Entry)
+
+// VerifOnSnapshotApplied is called after a snapshot received from the leader
+// has been handed to the group's snapshot process function.
+var VerifOnSnapshotApplied func(nodeId uint64, group uuid.UUID, index uint64, term uint64)
+
+func verifOnApply(g *RaftGroup, entry raftpb.Entry) {
+	if VerifOnApply != nil {
+		VerifOnApply(g.transport.nodeId, g.id, entry)
+	}
+}
+
+func verifOnSnapshotApplied(g *RaftGroup, snap raftpb.Snapshot) {
+	if VerifOnSnapshotApplied != nil {
+		VerifOnSnapshotApplied(g.transport.nodeId, g.id, snap.Metadata.Index, snap.Metadata.Term)
+	}
+}
+
+func (this *RaftGroup) VerifId() uuid.UUID                { return this.id }
+func (this *RaftGroup) VerifStatus() etcdRaft.Status      { return this.raft.Status() }
+func (this *RaftGroup) VerifTransport() *RaftTransport    { return this.transport }
+func (this *RaftGroup) VerifConfState() *raftpb.ConfState { return this.raftConfState }
+
+// VerifKill stops the underlying raft node of a group whose host "crashed"
+// (the run loop may be parked at a durable-write boundary forever): nothing of
+// it may touch the log store after the database has been closed for restart.
+func (this *RaftGroup) VerifKill() {
+	this.ctxCancel()
+	this.raft.Stop()
+}
+
+// VerifGroups lists the groups registered with the transport.
+func (this *RaftTransport) VerifGroups() []*RaftGroup {
+	this.groupsMu.RLock()
+	defer this.groupsMu.RUnlock()
+	out := make([]*RaftGroup, 0, len(this.groups))
+	for _, g := range this.groups {
+		out = append(out, g)
+	}
+	return out
+}
